@@ -28,6 +28,7 @@ type elemX struct {
 	Kind     string // body path query header cookie
 	Name     string // attribute name ("" = the whole payload / result)
 	Wire     string // name on the wire (parameters, headers, cookies)
+	BodyType string // name of the body user type ("" when the body is not a user type)
 	Att      *expr.AttributeExpr
 	Required bool
 	Ctx      [3]bool
@@ -50,6 +51,7 @@ type extracted struct {
 	userTerms []string
 	aliasTerm []string
 	v3        *schemaDump
+	shared    map[string]bool // service/method -> a schema of the operation is shared with another type
 }
 
 var formatIDs = map[string]int{"date": 0, "date-time": 1, "uuid": 2, "email": 3, "hostname": 4, "ipv4": 5, "ipv6": 6, "ip": 7, "uri": 8, "mac": 9, "cidr": 10, "regexp": 11, "json": 12, "rfc1123": 13}
@@ -266,13 +268,18 @@ func (ex *extracted) bodyElem(body *expr.AttributeExpr) *elemX {
 	}
 	a := body
 	ctx := ctxUnmarshal
+	bodyType := ""
 	if ut, ok := body.Type.(expr.UserType); ok && !expr.IsAlias(ut) {
 		a = ut.Attribute()
+		bodyType = ut.Name()
+		if n, ok := ut.Attribute().Meta["name:original"]; ok && len(n) > 0 {
+			bodyType = n[0]
+		}
 	} else {
 		// codegen.NewAttributeContext(!IsPrimitive(body.Type), false, !svr)
 		ctx = [3]bool{!expr.IsPrimitive(body.Type), false, false}
 	}
-	return &elemX{Loc: "body", Kind: "body", Att: a, Required: true, Ctx: ctx, Term: ex.attTerm(a, 0)}
+	return &elemX{Loc: "body", Kind: "body", Att: a, Required: true, Ctx: ctx, Term: ex.attTerm(a, 0), BodyType: bodyType}
 }
 
 func (ex *extracted) mappedElems(ma *expr.MappedAttributeExpr, kind string) []elemX {
